@@ -101,7 +101,11 @@ def r16c(ctx):
                 over_qual = bool(lb) and T.contains(lb[0], lambda z: z == ('this', 'QUAL')) and T.op(lb[0]) == 'mc' and T.node(lb[0])[1].split('::')[-1] == 'size' and \
                     T.node(lb[0])[2] == T.mk('this', 'QUAL')
                 zero = any(T.is_int(x, 0) for x in T.phi_src.get((T.node(acc[0])[1], T.node(acc[0])[2]), ()))
-                if over_qual and zero:
+                body = a.loop_nodes.get(T.node(acc[0])[1], set())
+                uncond = not any(x.kind == 'branch' and x.id in body and all(y.id in body for y in x.succ) for x in a.cfg.rpo)
+                if not uncond:
+                    seen = (seen or '') + '; members are skipped under a condition'
+                if over_qual and zero and uncond:
                     ok = True
     (ctx.ok if ok else ctx.bad)('R16c', 'R16c:GennaroJareckiKrawczykRabinNTS::Sign:s', 's = sum over all members of QUAL of the additive shares s_i, modulo q' if ok else
                                 'the signature value s is not accumulated as 0 + sum of s_i over all members of the key\'s qualified set QUAL modulo q (loop range: %s): '
